@@ -212,6 +212,11 @@ func (h *mcHandler) OnClose(c Conn, err error) Action {
 	ci.closes++
 	ci.closeErr = err
 	w.ev("close", ci.id, err, "")
+	if ci.closes > 3 {
+		// a broken engine may deliver OnClose again from inside the scenario's own OnClose hook
+		// (re-entrant close): stop the recursion here, the lifecycle monitor reports the repeats
+		return None
+	}
 	if w.onClose != nil {
 		return w.onClose(w, ci, err)
 	}
